@@ -625,6 +625,26 @@ def r124(ctx):
                         for it in par.items:
                             if isinstance(it.context_expr, ast.Call) and dotted(it.context_expr.func).endswith("Popen"):
                                 protected = True
+                            # contextlib.ExitStack() as X  +  X.callback(<terminating function>, <process>)
+                            if isinstance(it.context_expr, ast.Call) and last_name(it.context_expr) == "ExitStack" and isinstance(it.optional_vars, ast.Name):
+                                stack = it.optional_vars.id
+                                for cb in walk_local(par):
+                                    if (isinstance(cb, ast.Call) and isinstance(cb.func, ast.Attribute) and cb.func.attr in ("callback", "push")
+                                            and path_of(cb.func.value) == stack and len(cb.args) >= 2 and path_of(cb.args[1]) == var
+                                            and cfg.nodes_of(cb) and cfg.dominates(pn, cfg.node_of(cb))):
+                                        # the callback must really terminate the process
+                                        fn = cb.args[0]
+                                        target = None
+                                        if isinstance(fn, ast.Name):
+                                            for rel2 in (ENGBASE, ENGPARTS, m.rel):
+                                                if tree.has_func(rel2, fn.id):
+                                                    target = tree.func(rel2, fn.id)
+                                        if target is not None and any(isinstance(c2, ast.Call) and (dotted(c2.func) in ("os.killpg", "os.kill") or (isinstance(c2.func, ast.Attribute) and c2.func.attr in ("terminate", "kill"))) for c2 in walk_local(target)):
+                                            # no frame processing between Popen and the registration
+                                            between = [x for x in walk_local(f) if isinstance(x, ast.Call) and last_name(x) in ("read_and_process_content", "calculate_order", "add_to_path") and cfg.nodes_of(x)
+                                                       and cfg.reaches(pn, cfg.node_of(x)) and cfg.reaches(cfg.node_of(x), cfg.node_of(cb))]
+                                            if not between:
+                                                protected = True
                     n = par
                 if protected:
                     ctx.ok(rid, pc, f"{q}: {var} is terminated when the polling block is left by an exception")
@@ -1006,6 +1026,8 @@ VARIANTS = [
     B("c12-lammps-wait-without-poll", LAMMPS, '                sleep(self.sleep)\n                if exe.poll() is not None:\n                    logger.debug("LAMMPS execution stopped")\n                    break\n', "                sleep(self.sleep)\n", "R-12.7", control=True),
     B("c12-gromacs-start-without-poll", GROMACS, '                sleep(self.SLEEP)\n                poll = self.check_poll()\n                if poll is not None:\n                    logger.debug("GROMACS execution stopped")\n                    break\n', "                sleep(self.SLEEP)\n", "R-12.7"),
     B("c12-lammps-shared-box-buffer", ENGPARTS, "            coordinate_snapshot = np.zeros((N_atoms, 6), dtype=np.float64)\n            box_snapshot = np.zeros((3, 3), dtype=np.float64)\n    return trajectory, box", "            coordinate_snapshot = np.zeros((N_atoms, 6), dtype=np.float64)\n    return trajectory, box", "R-12.8", control=True, why="seeded C12_a"),
+    B("c12-lammps-no-cleanup-on-exception", LAMMPS, "            # do not leave the program running if an exception ends this block\n            cleanup.callback(terminate_process, exe)\n", "", "R-12.4", control=True, why="pre-fix F12.2"),
+    B("c12-cleanup-does-not-terminate", ENGBASE, "    if exe.poll() is None:\n        os.killpg(os.getpgid(exe.pid), signal.SIGTERM)\n        exe.wait(timeout=360)\n\n\ndef counter", "    if exe.poll() is None:\n        logger.debug(\"still running\")\n\n\ndef counter", "R-12.4"),
     B("c12-lammps-final-read-skipped", LAMMPS, "                while exe.poll() is None or iterations_after_stop <= 1:", "                while exe.poll() is None or iterations_after_stop < 1:", "R-12.9", control=True, why="seeded C12_b"),
     B("c12-cp2k-no-extra-iteration", CP2K, "                while exe.poll() is None or iterations_after_stop <= 1:", "                while exe.poll() is None:", "R-12.9"),
     # ---- preserving
